@@ -18,8 +18,8 @@ using namespace pbt;
 using tr::TVal;
 
 struct Mut { int kind = 0; long a = 0, b = 0, c = 0; };
-enum { M_FOOT_INT = 0, M_FOOT_DROP, M_FOOT_LIST, M_FOOT_BIN, M_PAGE_INT, M_PAGE_DROP, M_BODY_BYTE, M_BODY_WORD, M_TRUNC, M_FOOT_LEN, M_MAGIC, M_RAW, M_DEEP, M_FOOT_RETYPE, M_NKINDS };
-static const char *mutName(int k) { static const char *n[] = {"footer_int", "footer_drop_field", "footer_list_resize", "footer_binary", "page_header_int", "page_header_drop_field", "page_body_byte", "page_body_word", "truncate", "footer_length", "magic", "raw_bytes", "deep_nesting", "footer_retype"}; return n[k]; }
+enum { M_FOOT_INT = 0, M_FOOT_DROP, M_FOOT_LIST, M_FOOT_BIN, M_PAGE_INT, M_PAGE_DROP, M_BODY_BYTE, M_BODY_WORD, M_TRUNC, M_FOOT_LEN, M_MAGIC, M_RAW, M_DEEP, M_FOOT_RETYPE, M_DEEP_SCHEMA, M_NKINDS };
+static const char *mutName(int k) { static const char *n[] = {"footer_int", "footer_drop_field", "footer_list_resize", "footer_binary", "page_header_int", "page_header_drop_field", "page_body_byte", "page_body_word", "truncate", "footer_length", "magic", "raw_bytes", "deep_nesting", "footer_retype", "deep_schema"}; return n[k]; }
 
 struct C { pw::FileSpec fs; std::vector<Mut> muts; int mode = 0; std::vector<int> sc; };
 static CaseText ser(const C &c) {
@@ -33,13 +33,16 @@ static C de(const CaseText &t) {
   c.fs = gf::getSpec(t); return c;
 }
 static rc::Gen<Mut> genMut() {
-  return rc::gen::map(rc::gen::tuple(rc::gen::weightedElement<int>({{6, M_FOOT_INT}, {2, M_FOOT_DROP}, {2, M_FOOT_LIST}, {2, M_FOOT_BIN}, {5, M_PAGE_INT}, {1, M_PAGE_DROP}, {4, M_BODY_BYTE}, {3, M_BODY_WORD}, {1, M_TRUNC}, {1, M_FOOT_LEN}, {1, M_MAGIC}, {2, M_RAW}, {1, M_DEEP}, {1, M_FOOT_RETYPE}}),
+  return rc::gen::map(rc::gen::tuple(rc::gen::weightedElement<int>({{6, M_FOOT_INT}, {2, M_FOOT_DROP}, {2, M_FOOT_LIST}, {2, M_FOOT_BIN}, {5, M_PAGE_INT}, {1, M_PAGE_DROP}, {4, M_BODY_BYTE}, {3, M_BODY_WORD}, {1, M_TRUNC}, {1, M_FOOT_LEN}, {1, M_MAGIC}, {2, M_RAW}, {1, M_DEEP}, {1, M_FOOT_RETYPE}, {1, M_DEEP_SCHEMA}}),
                                      irange(0, 100000), irange(0, 100000), irange(0, 100000)),
                       [](const std::tuple<int, int, int, int> &t) { Mut m; m.kind = std::get<0>(t); m.a = std::get<1>(t); m.b = std::get<2>(t); m.c = std::get<3>(t); return m; });
 }
 static rc::Gen<C> genC() {
   gf::Opts o; o.max_cols = 5; o.max_rows = 60; o.max_rgs = 2; o.max_pages = 3; o.nested = true;
-  return rc::gen::map(rc::gen::tuple(gf::specGen(o), rc::gen::resize(4, rc::gen::container<std::vector<Mut>>(genMut())), irange(0, 2), rc::gen::container<std::vector<int>>(12, irange(0, 1000))),
+  // rarely a wide file: the parsed metadata then spans several arena blocks of the reader (a few hundred column chunks)
+  gf::Opts wide; wide.max_cols = 120; wide.max_rows = 3; wide.max_rgs = 4; wide.max_pages = 1; wide.nested = false; wide.min_cols = 40;
+  auto spec = rc::gen::weightedOneOf<pw::FileSpec>({{14, gf::specGen(o)}, {1, gf::specGen(wide)}});
+  return rc::gen::map(rc::gen::tuple(spec, rc::gen::resize(4, rc::gen::container<std::vector<Mut>>(genMut())), irange(0, 2), rc::gen::container<std::vector<int>>(12, irange(0, 1000))),
                       [](const std::tuple<pw::FileSpec, std::vector<Mut>, int, std::vector<int>> &t) { C c; c.fs = std::get<0>(t); c.mode = std::get<2>(t); c.sc = std::get<3>(t); c.muts = std::get<1>(t); if (c.muts.size() > 3) c.muts.resize(3); if (c.muts.empty() && (c.sc[0] % 8) != 0) { Mut m; m.kind = c.sc[1] % M_NKINDS; m.a = c.sc[2] * 31 + c.sc[5]; m.b = c.sc[3] * 17 + c.sc[6]; m.c = c.sc[4] * 13 + c.sc[7]; c.muts.push_back(m); } return c; });
 }
 
@@ -140,7 +143,7 @@ static Hostile build(const C &c) {
           else if (how == 3 && !l->elems.empty()) { size_t n = 1 + (size_t)m.c % 40; TVal e = l->elems[0]; for (size_t i = 0; i < n; i++) l->elems.push_back(e); }
           else if (!l->elems.empty()) l->elems.erase(l->elems.begin());
         }
-        else if (m.kind == M_FOOT_BIN) { if (bins.empty()) break; TVal *b = bins[(size_t)m.a % bins.size()]; int how = (int)(m.b % 4); if (how == 0) b->bin.clear(); else if (how == 1) b->bin.assign((size_t)m.c % 70000, (uint8_t)'A'); else if (how == 2) b->bin.push_back(0); else b->bin.resize(b->bin.size() / 2); }
+        else if (m.kind == M_FOOT_BIN) { if (bins.empty()) break; TVal *b = bins[(size_t)m.a % bins.size()]; int how = (int)(m.b % 4); if (how == 0) b->bin.clear(); else if (how == 1) b->bin.assign((size_t)m.c % (bins.size() > 2000 ? 64 : 70000), (uint8_t)'A');   /* nodes of a deep schema chain share one name object */ else if (how == 2) b->bin.push_back(0); else b->bin.resize(b->bin.size() / 2); }
         else { if (ints.empty()) break; TVal *t = ints[(size_t)m.a % ints.size()]; static const int ty[] = {tr::T_BYTE, tr::T_I16, tr::T_I32, tr::T_I64, tr::T_TRUE, tr::T_DOUBLE, tr::T_BINARY}; t->type = ty[(size_t)m.b % 7]; if (t->type == tr::T_BYTE) t->i = (int8_t)t->i; }
         h.applied.push_back(mutName(m.kind)); h.structural = true;
         break;
@@ -151,6 +154,24 @@ static Hostile build(const C &c) {
         deep = {(uint8_t)(kind == 0 ? 0x09 : kind == 1 ? 0x0A : 0x0C), 0x3C};
         deep.insert(deep.end(), (size_t)depth, (uint8_t)(kind == 0 ? 0x19 : kind == 1 ? 0x1A : 0x1C));
         if (kind == 2) deep.insert(deep.end(), (size_t)std::min<long>(depth, 64) + 1, 0x00); else { deep.push_back(0x15); deep.push_back(0x00); }
+        h.applied.push_back(mutName(m.kind)); h.structural = true;
+        break;
+      }
+      case M_DEEP_SCHEMA: {   // the schema list becomes a chain of single-child groups above one leaf (depth-first recursion of the schema builder)
+        if (!have) break;
+        static const long depths[] = {3, 40, 900, 5000, 9990, 9998, 9999, 10001, 60000, 120000, 300000};
+        long depth = depths[(size_t)m.a % (sizeof depths / sizeof depths[0])];
+        TVal *sl = const_cast<TVal *>(foot.get(2));
+        if (!sl || sl->elems.size() < 2) break;
+        TVal root = sl->elems[0], leaf = sl->elems.back();
+        for (auto &f : root.fields) if (f.id == 5) f.v->i = 1;
+        TVal grp = TVal::Struct(); grp.add(3, TVal::Int(tr::T_I32, (m.b % 3))); grp.add(4, TVal::Str("g")); grp.add(5, TVal::Int(tr::T_I32, 1));
+        std::vector<TVal> el; el.reserve((size_t)depth + 2);
+        el.push_back(root); for (long i = 0; i < depth; i++) el.push_back(grp); el.push_back(leaf);
+        sl->elems.swap(el);
+        // keep one column chunk per row group so that the footer stays otherwise consistent
+        TVal *rgs = const_cast<TVal *>(foot.get(4));
+        if (rgs) for (auto &rg : rgs->elems) { TVal *cols = const_cast<TVal *>(rg.get(1)); if (cols && cols->elems.size() > 1) { TVal last = cols->elems.back(); cols->elems.clear(); cols->elems.push_back(last); } }
         h.applied.push_back(mutName(m.kind)); h.structural = true;
         break;
       }
